@@ -290,6 +290,47 @@ def body_builder_history(k, dup_bias=None):
     return body
 
 
+def body_long_history(n, builder):
+    """n pairwise distinct values interned from new(), then one more operation on a value that equals the j-th one, j symbolic: catches
+    behaviour that changes with the table size (thresholds, re-hashing, caches) whatever the representation is"""
+    def body(M):
+        M.aux['dictmaps'] = True
+        xs = [z3.Const('d%d' % i, T) for i in range(n)]
+        if n > 1: M.add(z3.Distinct(xs))
+        xr = z3.Const('xr', T); M.add(z3.Or([xr == x for x in xs]))
+        viol = []
+        if builder:
+            b = Cell(M.run_fn(M.resolve('PortableRegistryBuilder::new'), []))
+            for i, x in enumerate(xs): viol.append(('id of the %d-th distinct value' % i, M.run_fn(M.resolve('PortableRegistryBuilder::register_type'), [Ref(b), x]) != i))
+            r = M.run_fn(M.resolve('PortableRegistryBuilder::register_type'), [Ref(b), xr])
+            for i, x in enumerate(xs): viol.append(('re-registration returns the first id', z3.And(xr == x, r != i)))
+            viol.append(('next_type_id after re-registration', M.run_fn(M.resolve('PortableRegistryBuilder::next_type_id'), [Ref(b)]) != n))
+            ts = seq_elems(M, M.run_fn(M.resolve('PortableRegistryBuilder::finish'), [Ref(b)])[0])
+            viol.append(('finish length', z3.BoolVal(len(ts) != n)))
+            for i, pt in enumerate(ts[:n]): viol.append(('finish entry %d' % i, z3.Or(pt[0] != i, pt[1] != xs[i])))
+        else:
+            it = Cell(M.run_fn(M.resolve('Interner::<T>::new'), []))
+            for i, x in enumerate(xs):
+                r = M.run_fn(M.resolve('Interner::<T>::intern_or_get'), [Ref(it), x]); viol.append(('id of the %d-th distinct value' % i, z3.Or(z3.Not(r[0]), r[1][0] != i)))
+            r = M.run_fn(M.resolve('Interner::<T>::intern_or_get'), [Ref(it), xr])
+            viol.append(('re-interning is not an insertion', r[0]))
+            for i, x in enumerate(xs): viol.append(('re-interning returns the first id', z3.And(xr == x, r[1][0] != i)))
+            g = M.run_fn(M.resolve('Interner::<T>::get'), [Ref(it), Ref(Cell(xr))])
+            if g.discr != 1: viol.append(('get of an interned value is Some', z3.BoolVal(True)))
+            else:
+                for i, x in enumerate(xs): viol.append(('get returns the first id', z3.And(xr == x, payload(g, 1)[0][0] != i)))
+            els = seq_elems(M, deref(M, M.run_fn(M.resolve('Interner::<T>::elements'), [Ref(it)])))
+            viol.append(('elements length', z3.BoolVal(len(els) != n)))
+            for i, e in enumerate(els[:n]): viol.append(('element %d' % i, e != xs[i]))
+        m = M.model(z3.Or([c for _, c in viol]))
+        if m is None: M.emit('ok', n=n)
+        else:
+            j = [i for i, x in enumerate(xs) if z3.is_true(m.eval(xr == x, model_completion=True))]
+            M.emit('cex', what='builder.history' if builder else 'interner.history', pattern=list(range(n)) + j[:1], values=list(range(n)) + j[:1],
+                   failed=sorted({w for w, c in viol if z3.is_true(m.eval(c, model_completion=True))})[:4])
+    return body
+
+
 # ----------------------------------------------------------------------------- native replay
 def list_model(pre, op, arg, sym):
     if op in ('intern_or_get', 'register_type'):
@@ -359,13 +400,28 @@ def run(ctx):
     ctx.assumptions = ['Ord on the element type is a total order consistent with == (BTreeMap modelled as a partial function keyed by equality)',
                        'representation invariant: map and vec mutually inverse on [0,len) - preserved by every operation (checked), holds for new() (checked)']
     cexs = []
+    deferred = []
+    def attempt(name, body, **kw):
+        """a harness that cannot be executed on the current code (representation changed, unmodelled callee) is deferred, not fatal:
+        the remaining harnesses may still find a violation; without one the check ends inconclusive"""
+        try:
+            return run_harness(ctx, name, body, **kw)
+        except CheckInconclusive as e:
+            deferred.append('%s: %s' % (name, str(e)[:260]))
+            if ctx.harnesses and ctx.harnesses[-1].name == name: ctx.harnesses.pop()
+            return None
     ops = [('intern_or_get', False), ('get', False), ('resolve', False), ('elements', False), ('new', False),
            ('register_type', True), ('next_type_id', True), ('builder_get', True), ('new', True)]
     expected_classes = {'intern_or_get': {'occupied', 'vacant'}, 'get': {'some', 'none'}, 'resolve': {'some', 'none'}, 'elements': {'slice'}, 'new': {'new'},
                         'register_type': {'known', 'new'}, 'next_type_id': {'id'}, 'builder_get': {'some', 'none'}}
     for op, b in ops:
         name = ('builder.' if b else 'interner.') + op
-        h = run_harness(ctx, 'step-' + name, body_step(op, b), subst=SUBST)
+        try:
+            h = run_harness(ctx, 'step-' + name, body_step(op, b), subst=SUBST)
+        except CheckInconclusive as e:
+            # e.g. the builder no longer wraps an Interner: the inductive step does not apply; the black-box histories below still do.
+            deferred.append('%s: %s' % (name, str(e)[:300])); ctx.harnesses.pop() if ctx.harnesses and ctx.harnesses[-1].name == 'step-' + name else None
+            continue
         cexs += [r for r in h.results if r['kind'] == 'cex']
         for r in h.results:
             if r['kind'] == 'ok':
@@ -382,19 +438,33 @@ def run(ctx):
         if not expected_classes[op] <= seen: raise CheckInconclusive('vacuity: %s reached only %s on the witness states' % (name, seen))
     ctx.samples.append({'obligation': 'intern_or_get [vacant]', 'formula': 'INV(s0) and not present0[x]  =>  inserted and id == n0 and n1 == n0+1 and data1[n0] == x and prefix kept and INV(s1)', 'verdict': 'unsat (negated)'})
     for n in range((6 if Tq else 4) + 1):
-        h = run_harness(ctx, 'builder.finish-%d' % n, body_finish(n), subst=SUBST)
+        try:
+            h = run_harness(ctx, 'builder.finish-%d' % n, body_finish(n), subst=SUBST)
+        except CheckInconclusive as e:
+            deferred.append('builder.finish-%d: %s' % (n, str(e)[:200])); ctx.harnesses.pop() if ctx.harnesses and ctx.harnesses[-1].name == 'builder.finish-%d' % n else None
+            continue
         cexs += [r for r in h.results if r['kind'] == 'cex']
         ctx.obligations['finish lists value i at index i with id i, n=%d' % n] = 'unsat' if not h.kinds.get('cex') else 'sat'
     for k in range(1, (5 if Tq else 3) + 1):
-        h = run_harness(ctx, 'interner.history-%d' % k, body_history(k), subst=SUBST)
+        h = attempt('interner.history-%d' % k, body_history(k), subst=SUBST)
+        if h is None: continue
         cexs += [r for r in h.results if r['kind'] == 'cex']
         ctx.obligations['%d intern_or_get calls from empty agree with the list model (%d paths)' % (k, sum(h.kinds.values()))] = 'unsat' if not h.kinds.get('cex') else 'sat'
     for k in range(1, (5 if Tq else 4) + 1):
-        h = run_harness(ctx, 'builder.history-%d' % k, body_builder_history(k), subst=SUBST)
+        h = attempt('builder.history-%d' % k, body_builder_history(k), subst=SUBST)
+        if h is None: continue
         cexs += [r for r in h.results if r['kind'] == 'cex']
         ctx.obligations['builder: new() then %d register_type calls (+ next_type_id/get/finish) agree with the list model (%d value-equality patterns)' % (k, sum(h.kinds.values()))] = 'unsat' if not h.kinds.get('cex') else 'sat'
-    hneg = run_harness(ctx, 'negative-control', body_step('intern_or_get', False, wrong=True), subst=SUBST); ctx.harnesses.pop()
-    if not any(r['kind'] == 'cex' for r in hneg.results): raise CheckInconclusive('negative control (returned id == len+1) was not refuted')
+    nlong = 40 if Tq else 20
+    for b in (False, True):
+        h = attempt('%s.long-history-%d' % ('builder' if b else 'interner', nlong), body_long_history(nlong, b), subst=SUBST)
+        if h is None: continue
+        cexs += [r for r in h.results if r['kind'] == 'cex']
+        ctx.obligations['%s: %d pairwise distinct values from new(), then an operation on a value equal to the j-th (j symbolic) (%d paths)' % ('builder' if b else 'interner', nlong, sum(h.kinds.values()))] = 'unsat' if not h.kinds.get('cex') else 'sat'
+    hneg = attempt('negative-control', body_step('intern_or_get', False, wrong=True), subst=SUBST)
+    if hneg is not None:
+        ctx.harnesses.pop()
+        if not any(r['kind'] == 'cex' for r in hneg.results): raise CheckInconclusive('negative control (returned id == len+1) was not refuted')
     ctx.notes.append('negative control (post-condition "returned id == len + 1") refuted as required')
     unreal = []
     for c in cexs:
@@ -403,6 +473,8 @@ def run(ctx):
             unreal.append(case); continue
         rep, role = replay_case(ctx, case)
         ctx.report_case(case, rep, role)
+    if deferred and not ctx.violations:
+        raise CheckInconclusive('inductive step not applicable to the current code and no violation found by the bounded histories: ' + '; '.join(deferred)[:1500])
     if unreal and not ctx.violations:
         raise CheckInconclusive('step obligation failed but no pre-state with <= 4 elements realises it (invariant too weak or unreachable state): ' + json.dumps(unreal[0]))
     if not ctx.violations: translator_validation(ctx)
